@@ -74,6 +74,8 @@ type ActiveLoop struct {
 	ID      string
 	Written *WriteSet
 	LogLen  int // length of the ghost call log when the loop was cut
+	AllocMark *Term // heap allocation mark at the head of the iteration
+	ObjMark   int   // engine object counter at the head of the iteration
 }
 
 type WriteSet struct {
@@ -248,6 +250,8 @@ type Ctx struct {
 	ParamVals []Value
 	InitSym map[int]*Object
 	InlineAll bool
+	objByID  map[int]*Object
+	entryObjs int // engine object counter when the function body starts
 	JSVals   map[int64]Value // EV mode: concrete values behind js.Value refs (C19 table evaluation)
 	alloc0   *Term
 	initVals map[*Object]Value
@@ -310,7 +314,18 @@ func (c *Ctx) rangeFact(x *Term, t types.Type) *Term {
 
 func (c *Ctx) newObject(name string, t types.Type) *Object {
 	c.nobj++
-	return &Object{ID: c.nobj, Name: name, Typ: t}
+	o := &Object{ID: c.nobj, Name: name, Typ: t}
+	if c.objByID == nil {
+		c.objByID = map[int]*Object{}
+	}
+	c.objByID[o.ID] = o
+	return o
+}
+
+// fromInitialHeap: t is a read of the entry heap (no store in between); only such reads carry the input type
+// invariants (pointer identities >= 0) - stored values may be engine objects, whose identities are negative.
+func fromInitialHeap(t *Term) bool {
+	return t.Op == "select" && len(t.Args) == 2 && t.Args[0].Op == "select" && t.Args[0].Args[0].Op == "var"
 }
 
 var globalFresh int
@@ -342,7 +357,7 @@ func (c *Ctx) symbolic(st *State, t types.Type, name string) Value {
 		}
 		return sv
 	case *types.Array:
-		if u.Len() > 64 {
+		if u.Len() > 512 {
 			unsupported("symbolic array of length %d", u.Len())
 		}
 		av := &ArrayV{Elem: u.Elem()}
@@ -529,11 +544,26 @@ func (c *Ctx) heapRead(st *State, elem types.Type, ref, idx *Term, path []int) V
 			return s
 		case *types.Pointer:
 			s := get(p, "ptr")
-			st.assume(Cmp(">=", s, IntC(0), true))
+			if fromInitialHeap(s) {
+				st.assume(Cmp(">=", s, IntC(0), true))
+			}
+			if isNum(s) && s.Val.Sign() < 0 {
+				if o := c.objByID[int(-s.Val.Int64())]; o != nil {
+					return PtrV{Obj: o}
+				}
+			}
 			return PtrV{Sym: s, Typ: u.Elem()}
 		case *types.Interface:
 			s := get(p, "iface")
-			st.assume(Cmp(">=", s, IntC(0), true))
+			if fromInitialHeap(s) {
+				st.assume(Cmp(">=", s, IntC(0), true))
+			}
+			if isNum(s) && s.Val.Sign() < 0 {
+				// an engine object stored earlier (identity = -object id): the interface holds a pointer to it
+				if o := c.objByID[int(-s.Val.Int64())]; o != nil {
+					return IfaceV{Dyn: types.NewPointer(o.Typ), Val: PtrV{Obj: o}, Iface: t}
+				}
+			}
 			return IfaceV{Sym: s, Iface: t}
 		case *types.Signature:
 			return FuncV{Sym: get(p, "func")}
